@@ -85,7 +85,8 @@ def field_flow(F, fn, gcfields):
                     p = op_place(a)
                     if p:
                         fs |= fields_of_place(p)
-                if fs and lastseg(t["f"]) in PARTIAL_VIEWS and bi not in traceish:
+                ranged = lastseg(t.get("decl") or t["f"]) in ("index", "index_mut", "get_unchecked", "get") and re.search(r"Range(To|From|Inclusive|ToInclusive)?\b", t.get("g", "") + t["f"]) and "RangeFull" not in t.get("g", "") + t["f"]
+                if fs and (lastseg(t["f"]) in PARTIAL_VIEWS or ranged) and bi not in traceish:
                     # a partial view of the field (first slice, first element, a prefix..): what is traced
                     # through it does not cover the field
                     partial.setdefault(lastseg(t["f"]), set()).update(fs)
@@ -107,7 +108,7 @@ def field_flow(F, fn, gcfields):
 # adaptors that hand out only part of a collection: tracing through them does not trace the field
 PARTIAL_VIEWS = {"as_slices", "as_mut_slices", "split_at", "split_at_mut", "split_first", "split_last", "first", "last",
                  "get", "get_mut", "get_unchecked", "take", "skip", "step_by", "nth", "filter", "take_while", "skip_while",
-                 "chunks", "windows", "peek", "front", "back", "find", "position", "min", "max", "next_back"}
+                 "chunks", "windows", "peek", "front", "back", "find", "position", "min", "max", "next_back", "from_raw_parts", "from_raw_parts_mut"}
 
 
 def closures_touching_self(F, fn):
@@ -259,7 +260,7 @@ def run(rec, F, exceptions=None, only_adts=None, only_fields=None, field_type_re
     rec.floor(R, "Trace/TraceRoot impls on local ADTs", n_impls, 190)
     for exk in exceptions:
         if exk not in used_exc:
-            rec.unan(R, "%s.%s" % exk, "exception entry no longer needed (field is traced or gone)")
+            rec.unan(R, "%s.%s" % exk, "exception entry no longer needed (field is traced or gone)", benign=True)
     run_paths(rec, F, bearing)
     run_generic_params(rec, F)
 
